@@ -53,11 +53,13 @@ def depth2_terms():
 
 
 ADD_KIDS = [X, ("Constant", 0), ("Constant", 1), ("Negation", X), ("Add", (X, Y)), ("Logarithm", X, math.e),
-            ("Logarithm", Y, math.e), ("Logarithm", X, 2), ("Minus", X, Y), ("Constant", 2), ("Negation", ("Negation", Y))]
+            ("Logarithm", Y, math.e), ("Logarithm", X, 2), ("Minus", X, Y), ("Constant", 2), ("Negation", ("Negation", Y)),
+            ("Negation", ("Logarithm", Y, math.e)), ("Negation", ("Logarithm", X, 2)), ("Logarithm", Y, 2), ("Constant", -3)]
 MUL_KIDS = [X, ("Constant", 0), ("Constant", 1), ("Constant", -1), ("Constant", 2), ("Negation", X), ("Negation", Y),
             ("Reciprocal", X), ("Multiply", (X, Y)), ("NthPower", X, 2), ("NthPower", Y, 2), ("NthPower", X, 3),
             ("NthRoot", X, 2), ("NthRoot", Y, 2), ("NthRoot", X, 3), ("Exponential", X, math.e),
-            ("Exponential", Y, math.e), ("Exponential", X, 2), ("Divide", X, Y)]
+            ("Exponential", Y, math.e), ("Exponential", X, 2), ("Divide", X, Y), ("Reciprocal", ("NthPower", X, 2)),
+            ("Exponential", Y, 2), ("NthRoot", Y, 3), ("Reciprocal", Y)]
 
 
 def skeleton_blocks():
